@@ -256,13 +256,18 @@ impl L2Entry {
                 let compressed_offset_bits = 62 - (cluster_bits - 8);
                 let offset = value.cluster_offset.unwrap();
                 let length = value.compressed_length.unwrap();
-                assert!(length < 1 << cluster_bits);
+                assert!(length > 0);
 
                 // The first sector is not considered, so we subtract the number of bytes in it
                 // that belong to this compressed cluster from `length`:
                 // ceil((length - (512 - (offset & 511))) / 512)
                 // = (length + 511 - 512 + (offset & 511)) / 512
                 let sectors = (length - 1 + (offset & 511) as usize) / 512;
+
+                // `length` is an upper limit in whole sectors counted from an
+                // arbitrary byte offset: it may exceed the cluster size, what
+                // must fit is the sector count in its (cluster_bits - 8) bit field
+                assert!(sectors < 1 << (cluster_bits - 8));
 
                 (1 << 62) | ((sectors as u64) << compressed_offset_bits) | offset
             }
